@@ -286,11 +286,20 @@ Chains == {TScope("A", {Single("A", RefTo("A"))}),                              
 ChainSchema == TSchema({KV("s1", Step("s1", TScope("A", {Single("A", RefTo("B")), Single("B", RefTo("B"))}),
                                       {KV("ok", Out(TScope("A", {Single("A", RefTo("B")), Single("B", RefTo("C")), Single("C", RefTo("B"))}),
                                                     None, FALSE))}, {}, {}, None))})
+\* objects declared INLINE - as a property type, a list item, a map value, a one-of member -, each with a
+\* defaulted property: they are in no scope table, so whatever a loader does per table entry misses them
+InlineObj(id, t, def) == TObject(id, {[P("d", t) EXCEPT !.default = Some(def)], P("k", TStr0)}, FALSE, "map")
+BaseInline == TScope("A", {KO("A", TObject("A",
+                  {P("o", InlineObj("I1", TInt0, "1")),
+                   P("l", TList(InlineObj("I2", TStr0, "ab"), None, None, FALSE)),
+                   P("m", TMap(TStr0, InlineObj("I3", TBool, "true"), None, None, FALSE)),
+                   P("u", TOneOf("string", "t", FALSE, {Mem(S("x"), InlineObj("I4", TInt0, "5"))}))},
+                  FALSE, "map"))})
 \* bases that are exercised as they are (quick tier: not mutated)
 PlainBases == IF Tier = "quick" THEN Chains \cup {ChainSchema} ELSE {}
-Bases == IF Tier = "quick" THEN {BaseRich, BaseOne, BaseSmall, BaseSchema, BaseUnits}
+Bases == IF Tier = "quick" THEN {BaseRich, BaseOne, BaseSmall, BaseSchema, BaseUnits, BaseInline}
          ELSE IF MaxMut = 1 THEN {BaseRich, BaseOne, BaseOneI, BaseEnum, BaseEnumI, BaseInner, BaseSmall, BaseTiny,
-                                  BaseFloat, BaseSchema, BaseSchemaS, BaseUnits, ChainSchema} \cup Chains
+                                  BaseFloat, BaseSchema, BaseSchemaS, BaseUnits, BaseInline, ChainSchema} \cup Chains
          ELSE {BaseSmall, BaseTiny, BaseSchemaS}
 
 \* grammar-free trees: atoms, and one or two levels of containers under the keys the entry points look for
